@@ -111,6 +111,11 @@ void MainSolver::insertFormula(PTRef fla) {
     if (logic.getSortRef(fla) != logic.getSort_bool()) {
         throw ApiException("Top-level assertion sort must be Bool, got " + logic.sortToString(logic.getSortRef(fla)));
     }
+#ifdef OPENSMT_VERIF_TRACE
+    if (veriftrace::on()) {
+        veriftrace::emit("{\"e\":\"insert\",\"level\":" + std::to_string(getAssertionLevel()) + ",\"x\":" + std::to_string(fla.x) + "}");
+    }
+#endif
     // TODO: Move this to preprocessing of the formulas
     fla = IteHandler(logic, getPartitionManager().getNofPartitions()).rewrite(fla);
 
